@@ -171,4 +171,26 @@ CHECKS = {
         floors={"outcome=cancel": 0.05, "outcome=transport": 0.05, "outcome=openfail": 0.03, "chain=6": 0.05, "single=true": 0.02},
         assumptions=COMMON_ASSUMPTIONS + ["a caller's cancellation of a unary call is not conveyed to the server by goat (no reset for unary calls); the harness releases such handlers itself"],
     ),
+    "C16": dict(
+        level="exploration",
+        rule=("three rapid sub-checks. envelopes: a proxy with 1..8 scripted clients and 1..4 scripted servers (some pre-attached, the rest dialled on demand, plus unknown names whose dial fails), an address-rewriting function from {none, alias->s0, alias->unknown, error for source c1}, "
+              "1..40 envelopes with drawn source, destination (attached, dialable, unknown, alias), optional one/two-hop return route and prior route record, settled every 1..12 envelopes so that at most 12 are outstanding per destination. Oracle model.Proxy (independent routing model): "
+              "every accepted envelope arrives exactly once at the modelled peer, per (source,destination) order preserved, body/id/metadata unchanged, own name appended to the route record exactly once, return route popped, nothing else delivered, drop counter 0. "
+              "rpc: the C01-C04 generators (unary exactness, stream delivery, status fidelity, metadata) through 1..4 clients -> proxy -> Demux keyed by source -> one Serve per client, same oracles as on a direct connection. "
+              "burst: 17..60 envelopes (or a server stream of that many messages) to one destination whose writes are parked: loss equal to the verif drop counter is the listed known finding proxy-drop; any other loss, duplicate or reordering is a violation. "
+              "Non-trivial = >=2 sources to one destination, a dial-on-demand peer, a rewrite, >=2 proxy clients, or a burst."),
+        jobs=[dict(test="TestC16", quick=640, thorough=20000), dict(test="TestC16RPC", quick=480, thorough=12000), dict(test="TestC16Burst", quick=64, thorough=1000, shards=4)],
+        floors={"dial_on_demand=true": 0.1, "rewrite=alias": 0.03, "burst.rpc=true": 0.005},
+        assumptions=COMMON_ASSUMPTIONS + ["loss is attributed to buffer overflow through the verif-tagged counter at the proxy's drop site"],
+    ),
+    "C17": dict(
+        level="exploration",
+        rule=("rapid-generated scenarios around 1..6 rounds of honest ping-pong between two scripted peers c0 and c1 attached to a proxy: spoof (an envelope from c0 claiming another attached name / an empty or unattached name / carrying no header), "
+              "bad peer (a destination whose writes never complete with 20 envelopes queued for it, a failing reader, a failing writer, a dial error, a dial still in progress), re-attachment of c1 under its name before or after the old connection fails on read or write, and cancellation of the proxy's context after 0..8 steps. "
+              "Oracle: no crash; spoofed/headerless envelopes reach nobody; every honest envelope arrives exactly once at the next quiescent point whatever the bad peer does; a failed connection is reported to the disconnect callback and an envelope to its name then triggers a fresh dial; "
+              "after re-attachment traffic reaches the new connection; after cancellation nothing is forwarded, Serve returns and the synctest bubble ends with no goroutine left. Non-trivial = every case (all involve a fault, a spoof or a cancellation)."),
+        jobs=[dict(test="TestC17", quick=1200, thorough=30000)],
+        floors={"mode=cancel": 0.15, "mode=reattach/old_first=false/read": 0.02, "mode=spoof/other-source": 0.02},
+        assumptions=COMMON_ASSUMPTIONS,
+    ),
 }
